@@ -1,1 +1,127 @@
-CHECKS = {}
+"""C13: remote JWKS key set (spec/KS.tla, KSDesign.tla, KSMBT.tla, KSTrace.tla; harness/ksdrv with the verif hooks)."""
+import json, os, time, collections
+from vlib import *  # noqa
+from opfamily import parse_behaviours
+
+SIZES = {
+    "quick": dict(design=["KSDesign_quick.cfg", "KSDesign_live.cfg"], walks=400, stress=300, big=0),
+    "thorough": dict(design=["KSDesign_quick.cfg", "KSDesign_live.cfg", "KSDesign_thorough.cfg", "KSDesign_thorough3.cfg"], walks=6000, stress=6000, big=24),
+}
+
+
+def monitor(wd):
+    vp = os.path.join(wd, "viol.ndjson")
+    if os.path.exists(vp):
+        os.remove(vp)
+    t = tlc(wd, "KSTrace.tla", cfg="KSTrace.cfg", workers=1, timeout=3600)
+    if not os.path.exists(vp):
+        raise Inconclusive("KS monitor did not consume the whole trace:\n" + "\n".join(t["out"].splitlines()[-30:]))
+    rows = read_ndjson(vp)
+    return rows[1:], rows[0]["lines"]
+
+
+def ks_check(pid, tier, seed, replay=None):
+    t0 = time.time()
+    wd = workdir(pid)
+    try:
+        if tier == "replay":
+            return ks_replay(pid, wd, replay)
+        sz = SIZES[tier]
+        design = []
+        for cfg in sz["design"]:
+            d = tlc(wd, "KSMC.tla", cfg=cfg, timeout=7200 if tier == "thorough" else 600, heap="40g" if tier == "thorough" else None)
+            design.append(dict(cfg=cfg, states=d["distinct"], transitions=d["generated"], depth=d["depth"], wall=round(d["wall"], 1)))
+            log(f"[{pid}] design {cfg}: {d['distinct']} distinct / {d['generated']} generated states, depth {d['depth']}, {d['wall']:.0f}s: all invariants/properties hold")
+        m = tlc(wd, "KSMBT.tla", cfg="KSMBT.cfg", workers=1, simulate=f"num={sz['walks']}", depth=40, seed=seed, timeout=1800)
+        behs = parse_behaviours(m["out"])
+        if not behs:
+            raise Inconclusive("no schedules from TLC:\n" + m["out"][-1500:])
+        with open(os.path.join(wd, "sched.ndjson"), "w") as f:
+            for i, b in enumerate(behs):
+                f.write(json.dumps(dict(id=f"sched-{i}", steps=b["steps"])) + "\n")
+        binp = go_build(wd, race=True)
+        rc, out = run([binp, "ks-replay", "-in", "sched.ndjson", "-out", "t1.ndjson", "-seed", str(seed)], wd, timeout=3600)
+        if rc != 0 or "DATA RACE" in out:
+            if "DATA RACE" in out:
+                with open(os.path.join(wd, "race.txt"), "w") as f:
+                    f.write(out)
+                p = save_replay(pid, wd, ["race.txt", "sched.ndjson"], seed, tier)
+                log(f"VIOLATION property={pid} replay={p} signature=C13.datarace :: race detector report during gate replay")
+                return 1
+            raise Inconclusive("ks-replay failed:\n" + out[-3000:])
+        stuck = [l for l in out.splitlines() if l.startswith("STUCK")]
+        if len(stuck) > len(behs) // 2:
+            raise Inconclusive(f"{len(stuck)} of {len(behs)} schedules could not be replayed:\n" + "\n".join(stuck[:5]))
+        rc, out2 = run([binp, "ks-stress", "-out", "t2.ndjson", "-n", str(sz["stress"]), "-seed", str(seed), "-depth", str(sz["big"])], wd, timeout=3600)
+        if "DATA RACE" in out2:
+            with open(os.path.join(wd, "race.txt"), "w") as f:
+                f.write(out2)
+            p = save_replay(pid, wd, ["race.txt"], seed, tier)
+            log(f"VIOLATION property={pid} replay={p} signature=C13.datarace :: race detector report during stress")
+            return 1
+        if rc != 0:
+            raise Inconclusive("ks-stress failed:\n" + out2[-3000:])
+        with open(os.path.join(wd, "trace.ndjson"), "w") as t:
+            for fn in ("t1.ndjson", "t2.ndjson"):
+                t.write(open(os.path.join(wd, fn)).read())
+        viols, lines = monitor(wd)
+        trace = read_ndjson(os.path.join(wd, "trace.ndjson"))
+        for v in viols:
+            e = trace[v["line"] - 1]
+            v["run"], v["op"], v["args"] = e.get("run"), e["op"], e["args"]
+            v["mode"] = "gated" if str(e.get("run", "")).startswith("sched") else "free"
+        runs = sum(1 for e in trace if e["op"] == "Reset")
+        cov = collections.Counter((e["op"], str(e["args"].get("res", e["args"].get("created", e["args"].get("ok", ""))))) for e in trace)
+        need = [("End", "ok"), ("End", "reject"), ("End", "cancelled"), ("End", "fetcherr"), ("Join", "True"), ("Join", "False"), ("Commit", "False"), ("Commit", "True")]
+        missing = [n for n in need if cov[n] == 0]
+        if missing:
+            raise Inconclusive(f"vacuous run: no event {missing}")
+        new, known = report(pid, viols, lambda v: f"{v['rule']}:{v['mode']}:{v['op']}",
+                            lambda v: dict(rule=v["rule"], line=v["line"], run=v["run"], op=v["op"], args=v["args"], mode=v["mode"]),
+                            wd, ["trace.ndjson", "viol.ndjson", "sched.ndjson"], seed, tier)
+        sample = [dict(op=e["op"], args=e["args"]) for e in trace[1:25]]
+        write_evidence(pid, tier, seed, "model_checking", dict(
+            states=sum(d["states"] for d in design), transitions=sum(d["transitions"] for d in design),
+            traces_validated_against_impl=runs, samples=[sample],
+            evaluations=len(trace), distinct_nontrivial=len({json.dumps([e["op"], e["args"]], sort_keys=True) for e in trace}),
+            rule="one trace = one key-set instance (a gate-replayed TLC schedule or a free-running stress run under -race); events are the hook points of remoteKeySet",
+            design=design, tlc_schedules_replayed=len(behs) - len(stuck), schedules_stuck=len(stuck), stress_runs=sz["stress"],
+            event_coverage={f"{k[0]}:{k[1]}": v for k, v in sorted(cov.items())}, monitor_lines=lines, known_findings_seen=known,
+            exhaustive=False),
+            time.time() - t0, new,
+            assumptions=["key ids are not reused for different key material across JWKS versions",
+                         "the fake JWKS endpoint (http.RoundTripper) stands for the provider; its answers are logged under its own lock",
+                         "hook order = real order: hooks under the key set's mutex log inside the critical section, all hooks append under one log mutex",
+                         "liveness (every call terminates) is checked on the design spec only, under weak fairness, without faults/cancellation"])
+        log(f"[{pid}] {len(behs) - len(stuck)} TLC schedules gate-replayed + {sz['stress']} free-running stress runs (-race): {len(trace)} events validated by KSTrace; "
+            f"{len(viols)} rule failures ({new} new, {known} known)")
+        return 1 if new else 0
+    finally:
+        cleanup(wd)
+
+
+def ks_replay(pid, wd, path):
+    import shutil
+    sched = os.path.join(path, "sched.ndjson")
+    binp = go_build(wd, race=True)
+    if os.path.exists(sched):
+        shutil.copy(sched, wd)
+        rc, out = run([binp, "ks-replay", "-in", "sched.ndjson", "-out", "trace.ndjson"], wd)
+        viols, lines = monitor(wd)
+        log(f"[{pid}] re-drove {lines} events of the saved schedules against the current code: {len(viols)} rule failures")
+        for v in viols[:20]:
+            log("  ", json.dumps(v))
+        if viols:
+            log(f"VIOLATION property={pid} replay={path}")
+            return 1
+    # the saved trace itself (free-running runs cannot be re-driven deterministically): re-validate
+    shutil.copy(os.path.join(path, "trace.ndjson"), wd)
+    t = tlc(wd, "KSTrace.tla", cfg="KSTraceReplay.cfg", workers=1, timeout=3600, allow_violation=True)
+    log("\n".join(l for l in t["out"].splitlines() if l.startswith(("Error", "State", "/\\ viol", "/\\ l "))))
+    if t["violated"]:
+        log(f"VIOLATION property={pid} replay={path} (saved trace re-validated; free-running schedule not reproducible on demand)")
+        return 1
+    return 0
+
+
+CHECKS = {"C13": ks_check}
